@@ -115,7 +115,9 @@ proof fn lemma_be64_roundtrip(v: int)
     assert(s.subrange(4, 8) =~= be32_seq(v % 4294967296));
 }
 pub open spec fn zeros(n: int) -> Seq<u8> { Seq::new(n as nat, |i: int| 0u8) }
+//@include inc/attrs_types.rs
 //@include inc/attrs_gen.rs
+//@include inc/attrs_turn.rs
 
 
 // ---------------------------------------------------------------- FINGERPRINT (RFC 8489 14.7)
